@@ -32,30 +32,50 @@ def xs_bytes(seed, n):
     return bytes(out)
 
 
-def file_struct(path, prefix_len=0):
-    """FileStruct trace record for a file, from the independent decoder."""
+BIG = 1 << 30
+
+
+def file_struct(path, prefix_len=0, sparse=False):
+    """FileStruct trace record for a file, from the independent decoder. TLC integers are 32-bit: when the table starts
+    beyond 1 GiB every offset is reported relative to the start of the table (rel = prefix_len; the writer configuration
+    logged for that file is shifted the same way by the caller), values that still do not fit are replaced by a
+    sentinel that equals nothing legitimate."""
+    rel = prefix_len if prefix_len >= BIG else 0
+
+    def fit(x):
+        y = x - rel
+        return y if -2000000000 < y < 2000000000 else -1999999999
     try:
         s = R.decode(path)
     except (R.FormatError, Exception) as ex:
         return {"e": "FileStruct", "path": path, "S": {"undecodable": str(ex)[:200]}}
-    data = open(path, "rb").read()
-    pre_ok = data[:prefix_len] == xs_bytes(77, prefix_len)
+    if sparse or prefix_len >= BIG:
+        with open(path, "rb") as f:
+            pre_ok = True
+            for pos in (0, prefix_len // 2, max(0, prefix_len - 4096)):
+                f.seek(pos)
+                chunk = f.read(min(4096, prefix_len - pos))
+                pre_ok = pre_ok and chunk == bytes(len(chunk))
+    else:
+        with open(path, "rb") as f:
+            pre_ok = f.read(prefix_len) == xs_bytes(77, prefix_len)
 
     def blk(b, index=False):
         ents = []
         for e in b["entries"]:
             d = {"off": e["off"], "shared": e["shared"], "ns": e["nonshared"], "vlen": e["vlen"], "k": list(e["key"])}
             if index:
-                d["boff"] = R.varint_dec(e["val"], 0, 10)[0]
+                d["boff"] = fit(R.varint_dec(e["val"], 0, 10)[0])
             else:
                 d["v"] = vrec(e["val"])
             ents.append(d)
-        return {"off": b["offset"], "lenlen": b["len_prefix"], "stored": b["stored_len"], "crcok": b["stored_crc"] == b["calc_crc"],
+        return {"off": fit(b["offset"]), "lenlen": b["len_prefix"], "stored": b["stored_len"], "crcok": b["stored_crc"] == b["calc_crc"],
                 "clen": b["contents_len"], "restarts": b["restarts"], "entries": ents}
     tr = dict(s["meta"])
+    tr["index_block_offset"] = fit(tr["index_block_offset"])
     tr["padzero"] = s["padding_zero"]
     tr["magic"] = "MTBL" if s["version"] == 2 else "v1"
-    S = {"size": s["size"], "prefix_ok": pre_ok, "version": s["version"], "comp": s["meta"]["compression_algorithm"],
+    S = {"size": fit(s["size"]), "prefix_ok": pre_ok, "version": s["version"], "comp": s["meta"]["compression_algorithm"],
          "blocks": [blk(b) for b in s["blocks"]], "index": blk(s["index"], True), "trailer": tr}
     return {"e": "FileStruct", "path": path, "S": S}
 
